@@ -878,6 +878,105 @@ theorem lookup_map_some {α β : Type} (g : α → β) (pre : List (Bytes × α)
       obtain ⟨m, hm⟩ := ih this
       exact ⟨m, by simp only [List.map_cons]; rw [lookup_cons_ne _ _ e]; exact hm⟩
 
+/-! ### when no exception escapes -/
+
+/-- Input-side condition under which `_apply_pack` runs to completion: deletions are not refused for lack of
+the capability, and every exception the ref container raises for a commanded name is caught by one of the
+two handlers. -/
+def NoEscape (env : Env) (caps : List Bytes) (cmds : List Cmd) : Prop :=
+  deleteRefused caps = false ∧
+  ∀ c ∈ cmds, ∀ mro, env.fault c.name = some mro →
+    catches Gen.ReceivePack.allExceptions mro = true ∨ catches Gen.ReceivePack.badRefCatches mro = true
+
+theorem guarded_no_error {env : Env} {s : Srv} {n : Name} {failMsg : Bytes} {call : Unit → Refs × Bool}
+    {fl : Flags}
+    (hf : ∀ mro, env.fault n = some mro →
+      catches Gen.ReceivePack.allExceptions mro = true ∨ catches Gen.ReceivePack.badRefCatches mro = true) :
+    ∃ r, guarded env s n failMsg call fl = .ok r := by
+  unfold guarded
+  split
+  · rename_i mro hm
+    rcases hf mro hm with h | h
+    · simp [h]
+    · by_cases h' : catches Gen.ReceivePack.allExceptions mro = true
+      · simp [h']
+      · simp [h', h]
+  · exact ⟨_, rfl⟩
+
+theorem updateRef_no_error {fl : Flags} {env : Env} {caps : List Bytes} {dc : Bool} {s : Srv} {c : Cmd}
+    (hd : deleteRefused caps = false)
+    (hf : ∀ mro, env.fault c.name = some mro →
+      catches Gen.ReceivePack.allExceptions mro = true ∨ catches Gen.ReceivePack.badRefCatches mro = true) :
+    ∃ r, updateRef fl env caps dc s c = .ok r := by
+  unfold updateRef
+  split
+  · simp only [hd, Bool.and_false, Bool.false_eq_true, if_false]
+    exact guarded_no_error hf
+  · split
+    · exact ⟨_, rfl⟩
+    · exact guarded_no_error hf
+
+theorem runLoop_no_raise {step : Srv → Cmd → Except Exc (Srv × Bytes)} (s : Srv) (cmds : List Cmd)
+    (h : ∀ s, ∀ c ∈ cmds, ∃ r, step s c = .ok r) : (runLoop step s cmds).raised = none := by
+  induction cmds generalizing s with
+  | nil => rfl
+  | cons c cs ih =>
+    obtain ⟨r, hr⟩ := h s c List.mem_cons_self
+    unfold runLoop
+    rw [hr]
+    exact ih _ (fun s c hc => h s c (List.mem_cons_of_mem _ hc))
+
+theorem validateAll_no_error {fl : Flags} {env : Env} {caps : List Bytes} {s : Srv}
+    (hd : deleteRefused caps = false) (cmds : List Cmd) :
+    ∃ r, validateAll fl env caps s cmds = .ok r := by
+  induction cmds with
+  | nil => exact ⟨_, rfl⟩
+  | cons c cs ih =>
+    obtain ⟨r, hr⟩ := ih
+    have hv : ∃ v, validate fl env caps s c = .ok v := by
+      unfold validate
+      split
+      · exact ⟨_, rfl⟩
+      · simp only [hd, Bool.and_false, Bool.false_eq_true, if_false]
+        split
+        · exact ⟨_, rfl⟩
+        · split <;> exact ⟨_, rfl⟩
+    obtain ⟨v, hv⟩ := hv
+    unfold validateAll
+    rw [hv, hr]
+    exact ⟨_, rfl⟩
+
+theorem refLoop_no_raise (fl : Flags) (env : Env) (caps : List Bytes) (s : Srv) (cmds : List Cmd)
+    (h : NoEscape env caps cmds) : (refLoop fl env caps s cmds).raised = none := by
+  obtain ⟨hd, hf⟩ := h
+  unfold refLoop
+  split
+  · obtain ⟨r, hr⟩ := validateAll_no_error (fl := fl) (env := env) (s := s) hd cmds
+    rw [hr]
+    obtain ⟨rs, f⟩ := r
+    cases f with
+    | true => rfl
+    | false =>
+      exact runLoop_no_raise s cmds (fun s c hc => updateRef_no_error hd (hf c hc))
+  · apply runLoop_no_raise s cmds
+    intro s c hc
+    unfold plainStep
+    split
+    · exact ⟨_, rfl⟩
+    · exact updateRef_no_error hd (hf c hc)
+
+theorem applyPack_no_raise (fl : Flags) (env : Env) (caps : List Bytes) (s : Srv) (u : Unpack) (cmds : List Cmd)
+    (h : NoEscape env caps cmds)
+    (hu : ∀ mro, u = .raises mro → catches Gen.ReceivePack.allExceptions mro = true) :
+    (applyPack fl env caps s u cmds).raised = none := by
+  unfold applyPack
+  split
+  · cases u with
+    | ok ids => exact refLoop_no_raise fl env caps _ cmds h
+    | raises mro =>
+      simp only [hu mro rfl, if_true]
+  · exact refLoop_no_raise fl env caps _ cmds h
+
 /-! ### `_apply_pack` level (used by Props/C06.lean) -/
 
 /-- "the push reports success for ref `n`": no exception escaped the handler and the status entry for `n`
